@@ -192,7 +192,7 @@ func init() {
 				{"LZ", "HUFFMAN", "text", 1024, 2*1024 + 11}, // last block <= 15 bytes: stored in copy mode
 			}
 			if c.Thorough() {
-				seeds = append(seeds, seed{"LZX", "FPAQ", "xml", 2048, 4*2048 + 100}, seed{"TEXT+UTF+BWT+SRT+ZRLT", "CM", "utf8-3", 2048, 2*2048 + 9}, seed{"RLT+LZP", "RANGE", "runs", 1024, 4*1024 + 100}, seed{"ROLZ", "ANS1", "dna", 1024, 2*1024 + 50})
+				seeds = append(seeds, seed{"LZX", "FPAQ", "xml", 2048, 4*2048 + 100}, seed{"TEXT+UTF+BWT+SRT+ZRLT", "CM", "utf8-3", 2048, 2*2048 + 9}, seed{"RLT+LZP", "RANGE", "runs", 1024, 4*1024 + 100}, seed{"LZX", "ANS1", "dna", 1024, 2*1024 + 50})
 			}
 			for _, sd := range seeds {
 				for _, ck := range []uint{32, 64} {
